@@ -175,6 +175,22 @@ template<class C> struct Seg {
     sk[j] = std::move(r); restored[j] = true; ids[j] = blob[b].ids; total[j] = blob[b].total; prof[j] = (int)g.below(5); eqw[j] = g.range(1, 9);
     e.i("consumed", consumed).bytes("reimg", re.data(), re.size()); scal(e, *sk[j]).emit();
   }
+  // damaged images (C11 clauses inside this family's driver): C made negative, or the image truncated: must be refused
+  void opDeserBad(int b) {
+    const std::vector<uint8_t>& img = blob[b].bytes;
+    if (img.size() < 48 || (img[0] & 0x3f) != 5) return;
+    std::vector<uint8_t> bad(img); long cut = -1; const char* what = "negative-c";
+    int kind = (int)g.below(4);           // 0 negative C bytes, 1 negative C stream, 2 truncated bytes, 3 truncated stream
+    if (kind <= 1) bad[47] |= 0x80;       // sign bit of C (offset 40..47 of a non-empty image)
+    else { what = "truncated"; cut = g.range(9, (long)img.size() - 1); bad.resize((size_t)cut); }
+    bool refused = false; std::string ex;
+    try {
+      if (kind % 2 == 0) { SK r = SK::deserialize(bad.data(), bad.size()); (void)r; }
+      else { std::istringstream is(std::string((const char*)bad.data(), bad.size())); SK r = SK::deserialize(is); (void)r; }
+    } catch (std::exception& e) { refused = true; ex = clean(e.what()); }
+    Ev("DeserBad").i("blob", b).str("what", what).str("path", kind % 2 == 0 ? "bytes" : "stream").i("cut", cut).i("size", (long long)img.size())
+      .b("refused", refused).str("ex", ex.substr(0, 80)).emit();
+  }
   void run(long events, int serde_pct) {
     opNew(0, drawK());
     for (long n = 0; n < events; n++) {
@@ -193,7 +209,7 @@ template<class C> struct Seg {
         int j = (int)g.below(NS);
         if (j != i && sk[j] && disjoint(i, j) && total[i] + total[j] <= MCAP) { opMerge(i, j, g.chance(40)); if (sk[i] && g.chance(60)) { if (g.chance(50)) opGetResult(i); else opIterate(i); } }
       } else if (op < upd + 30 + serde_pct) { opSer(i, (int)g.below(NB)); }
-      else { int b = (int)g.below(NB); if (blob[b].live) { int j = (int)g.below(NS); opDeser(b, j); } }
+      else { int b = (int)g.below(NB); if (blob[b].live) { if (g.chance(30)) opDeserBad(b); int j = (int)g.below(NS); opDeser(b, j); } }
     }
     for (int i = 0; i < NS; i++) if (sk[i]) { opGetResult(i); opIterate(i); }
   }
